@@ -4,7 +4,7 @@ from __future__ import annotations
 from collections import defaultdict
 from fractions import Fraction
 
-from ..util import fr, d as pdate, ZERO, DUST, TOL_10DP, TOL_FINE
+from ..util import cap_viols, fr, d as pdate, ZERO, DUST, TOL_10DP, TOL_FINE
 
 ALL_YEARS = {"range": [1899, 2101, "3000"]}
 
@@ -155,7 +155,7 @@ def run_ledger_cases(cases, oracle, *, record=False, fx=None, sample_fn=None, ma
             if s:
                 samples.append(s)
     return {"evaluations": len(cases), "nontrivial_hashes": hashes, "counters": cnt,
-            "violations": viols[:20], "samples": samples, "sets": {k: set(v) for k, v in sets.items()}}
+            "violations": cap_viols(viols), "samples": samples, "sets": {k: set(v) for k, v in sets.items()}}
 
 
 def split_factor(days, d_from, d_to):
